@@ -277,7 +277,13 @@ func (p c04) Run(c *core.Ctx) {
 		id++
 		body = append(body, &hast.Stmt{K: hast.SLine, Parts: []hast.Part{hast.Inl(hast.Var("round"))}, ID: id})
 		id++
-		body = append(body, &hast.Stmt{K: hast.SOptions, ID: id, Options: []*hast.Option{{Parts: []hast.Part{hast.Inl(hast.Bin("+", hast.Var("round"), hast.Num("10")))}}}})
+		// ... and options whose conditions put a unary operator over that variable: true at one showing, false at the other
+		body = append(body, &hast.Stmt{K: hast.SOptions, ID: id, Options: []*hast.Option{
+			{Parts: []hast.Part{hast.Inl(hast.Bin("+", hast.Var("round"), hast.Num("10")))}},
+			{Parts: []hast.Part{hast.Lit("neg")}, Cond: hast.Bin("<", hast.Neg(hast.Var("round")), hast.Num("0"))},
+			{Parts: []hast.Part{hast.Lit("not")}, Cond: hast.Not(hast.Bin("==", hast.Var("round"), hast.Num("0")))},
+			{Parts: []hast.Part{hast.Lit("notnot")}, Cond: hast.Bin("and", hast.Not(hast.Not(hast.Bin("==", hast.Var("round"), hast.Num("0")))), hast.Bool(true))},
+		}})
 		id++
 		body = append(body, &hast.Stmt{K: hast.SLine, Parts: []hast.Part{hast.Lit(fmt.Sprintf("sep%d", id))}, ID: id})
 		body = append(body, &hast.Stmt{K: hast.SIf, Clauses: []*hast.Clause{{
